@@ -154,6 +154,15 @@ func (ex *Exec) evalIdent(st *State, n *ast.Ident) Val {
 		c := ex.cellOf(o)
 		v, ok := st.store[c]
 		if !ok {
+			if o.Pos() < ex.fi.Body.Pos() || o.Pos() > ex.fi.Body.End() {
+				// captured variable of an enclosing function: an arbitrary value
+				v = ex.freshVal(st, kindOf(o.Type()), o.Name())
+				st.store[c] = v
+				if ex.entry != nil {
+					ex.entry.store[c] = v
+				}
+				return v
+			}
 			panic(unsupported("read of variable %s before assignment at %s", o.Name(), ex.pos(n)))
 		}
 		return v
@@ -806,9 +815,6 @@ func (ex *Exec) evalCall(st *State, call *ast.CallExpr) Val {
 		return &ObjV{K: &Kind{K: "obj", Name: "logger"}, ID: Zero, Ghost: map[string]Val{}}
 	}
 	f := ex.calleeOf(call)
-	if f != nil && len(ex.ct.Asserts) > 0 {
-		ex.ghostAsserts([]*State{st}, "before:"+f.Name(), call.Pos(), call)
-	}
 	if f == nil {
 		// call of a function value
 		fv := ex.evalExpr(st, call.Fun)
@@ -827,6 +833,19 @@ func (ex *Exec) evalCall(st *State, call *ast.CallExpr) Val {
 		return ex.callGadget(st, call)
 	}
 	args := ex.evalArgs(st, call, sig)
+	if len(ex.ct.Asserts) > 0 {
+		// assert@before:<callee>: the call's arguments are visible as arg0, arg1, … and the receiver as recv
+		extra := map[string]Val{}
+		for i, a := range args {
+			extra[fmt.Sprintf("arg%d", i)] = a
+		}
+		if recv != nil {
+			extra["recv"] = recv
+		}
+		ex.assertExtra = extra
+		ex.ghostAsserts([]*State{st}, "before:"+f.Name(), call.Pos(), call)
+		ex.assertExtra = nil
+	}
 	if recvExpr != nil {
 		// methods promoted from embedded interfaces: prefer a contract keyed by the static receiver type
 		rt := ex.info.TypeOf(recvExpr)
